@@ -159,4 +159,161 @@ var vfDBConcSpec = vlib.Spec[vfDBConc]{
 	Run: vfDBConcRun,
 }
 
-func TestVerif_C13(t *testing.T) { vlib.Both(t, vfDBConcSpec) }
+// ---- stop / plot again / stop again on one DB object -----------------------------------------------------------
+//
+// The keeper keeps one plot DB object per space for its whole life: plot, stop, plot again, stop again all go to the
+// same object. Every stop has to take effect: once StopPlot has signalled, the held plot must not run through the
+// scan of the window it was about to start.
+
+type vfStopRounds struct {
+	Scalar []byte `json:"scalar"`
+	BL     int    `json:"bl"`
+	Rounds int    `json:"rounds"`
+	Point  string `json:"point"` // A.window | B.window (right before a scan loop that polls the stop signal)
+	CapA   int    `json:"capA"`  // window size of pass A in records (0 = one window)
+}
+
+func vfStopRoundsRun(c vfStopRounds, ctx *vlib.Ctx) *vlib.Failure {
+	vfSetup()
+	dir, err := os.MkdirTemp("", "vfc13rounds")
+	if err != nil {
+		panic(err)
+	}
+	defer os.RemoveAll(dir)
+	pub := vfPub(c.Scalar)
+	dbi, err := CreateDB(dir, int64(1), pub, c.BL)
+	if err != nil {
+		return vlib.Failf("create-failed", "%v", err)
+	}
+	mdb := dbi.(*MassDBV1)
+	defer mdb.Close()
+	vfHookMu.Lock()
+	defer vfHookMu.Unlock()
+	rs := uint64(pocutil.RecordSize(c.BL))
+	VerifCacheCap = func(required uint64) uint64 {
+		if c.CapA > 0 && uint64(c.CapA)*rs < required {
+			return uint64(c.CapA) * rs
+		}
+		return required
+	}
+	defer func() { VerifCacheCap = nil; VerifPoint = nil }()
+	for round := 1; round <= c.Rounds; round++ {
+		if mdb.Ready() {
+			ctx.Label("plotted-before-last-round")
+			break
+		}
+		where := fmt.Sprintf("bl=%d round %d/%d hold at %s", c.BL, round, c.Rounds, c.Point)
+		reached := make(chan struct{})
+		release := make(chan struct{})
+		var once sync.Once
+		var mu sync.Mutex
+		released := false
+		scannedAfter := ""
+		VerifPoint = func(m *MassDBV1, name string, a, b pocutil.PoCValue) {
+			if m != mdb {
+				return
+			}
+			if name == c.Point {
+				once.Do(func() {
+					close(reached)
+					<-release
+				})
+				return
+			}
+			mu.Lock()
+			if released && scannedAfter == "" && (name == "A.scanned" || name == "B.scanned") && name[:1] == c.Point[:1] {
+				scannedAfter = fmt.Sprintf("%s [%d,%d)", name, a, b)
+			}
+			mu.Unlock()
+		}
+		plotRes := mdb.Plot()
+		select {
+		case <-reached:
+		case err := <-plotRes:
+			// the pass that contains the hold point is already complete: nothing to hold any more
+			if err != nil {
+				return vlib.Failf("plot:error", "%s: %v", where, err)
+			}
+			ctx.Label("hold-point-not-reached-any-more")
+			continue
+		case <-time.After(30 * time.Second):
+			close(release)
+			return vlib.Failf("harness:hold-point-not-reached", "%s", where)
+		}
+		ch := mdb.stopPlotCh
+		stopRes := mdb.StopPlot()
+		// the stop signal is a closed channel; give the signalling goroutine far more time than it can need
+		signalled := false
+		for i := 0; i < 100000 && !signalled; i++ {
+			select {
+			case <-ch:
+				signalled = true
+			default:
+				time.Sleep(100 * time.Microsecond)
+			}
+		}
+		mu.Lock()
+		released = true
+		mu.Unlock()
+		close(release)
+		select {
+		case <-stopRes:
+		case <-time.After(60 * time.Second):
+			buf := make([]byte, 1<<16)
+			buf = buf[:runtime.Stack(buf, true)]
+			return vlib.Failf("db-calls-blocked", "%s: StopPlot did not return after the held plot was released:\n%s", where, buf)
+		}
+		select {
+		case <-plotRes:
+		case <-time.After(60 * time.Second):
+			return vlib.Failf("plot-result-never-delivered", "%s", where)
+		}
+		mu.Lock()
+		sa := scannedAfter
+		mu.Unlock()
+		if sa != "" {
+			return vlib.Failf("stop-ignored", "%s: StopPlot was called while the plot was held right before a scan (stop signal visible to the plot: %v after 10 s), yet the plot went through the whole scan %s", where, signalled, sa)
+		}
+		if !signalled {
+			return vlib.Failf("stop-ignored", "%s: StopPlot never signalled the running plot (the stop channel of this plot was not closed within 10 s)", where)
+		}
+		ctx.Label("round-stopped")
+	}
+	// finally the plot completes on the same object
+	VerifPoint = nil
+	if !mdb.Ready() {
+		select {
+		case err := <-mdb.Plot():
+			if err != nil {
+				return vlib.Failf("plot:error", "final plot: %v", err)
+			}
+		case <-time.After(120 * time.Second):
+			return vlib.Failf("plot-result-never-delivered", "final plot")
+		}
+		mdb.wg.Wait()
+	}
+	if !mdb.Ready() {
+		return vlib.Failf("resume:not-complete-after-uninterrupted-run", "bl=%d: not plotted after the final uninterrupted plot", c.BL)
+	}
+	if c.Rounds >= 2 {
+		ctx.NonTrivial()
+	}
+	return nil
+}
+
+var vfStopRoundsSpec = vlib.Spec[vfStopRounds]{
+	Prop: "C13", Name: "plotdb-stop-rounds", NoShrink: true, Scale: 0.1, Min: 16,
+	Rule: "one real massdb.v1 plot object (bit length 8..11, pass A in one or several windows): 1-4 rounds of Plot(), hold right before the scan of a window of pass A or B (hook H2), StopPlot(), release; oracle: StopPlot signals the plot it was called for (closed stop channel), the plot does not run through the scan it was about to start, StopPlot and Plot return, and a final uninterrupted Plot() on the same object completes; non-trivial = >=2 rounds on one object; distinct = distinct case JSON",
+	Gen: func(t *rapid.T) vfStopRounds {
+		bl := rapid.IntRange(8, 11).Draw(t, "bl")
+		return vfStopRounds{Scalar: rapid.SliceOfN(rapid.Byte(), 1, 8).Draw(t, "scalar"), BL: bl, Rounds: rapid.IntRange(1, 4).Draw(t, "rounds"),
+			Point: rapid.SampledFrom([]string{"A.window", "A.window", "B.window"}).Draw(t, "point"),
+			CapA:  rapid.SampledFrom([]int{0, 0, (1 << uint(bl)) / 3, (1<<uint(bl))/2 + 1}).Draw(t, "capA")}
+	},
+	Run: vfStopRoundsRun,
+}
+
+func TestVerif_C13(t *testing.T) {
+	t.Run("concurrent", func(t *testing.T) { vlib.Both(t, vfDBConcSpec) })
+	t.Run("stop-rounds", func(t *testing.T) { vlib.Both(t, vfStopRoundsSpec) })
+}
